@@ -145,7 +145,7 @@ Proof. destruct r; cbn; [apply pv_eqb_refl | reflexivity | apply exn_eqb_refl]. 
 (* ---------- the duplicated switch agrees with the stand-alone validators ---------- *)
 (* what TraitCompound.set_validate can put in the fast list *)
 Definition alt_ok (a : desc) : bool :=
-  match a with DAny | DModule => false | _ => true end.
+  match a with DAny | DModule | DProperty _ => false | _ => true end.
 
 Ltac dm :=
   repeat (match goal with
@@ -488,7 +488,11 @@ Qed.
 (* induction on trait descriptions with the nested lists *)
 Section desc_ind_nested.
   Variable P : desc -> Prop.
-  Hypothesis Hleaf : forall d, (forall ds, d <> DTuple ds /\ d <> DCompound ds /\ d <> DUnion ds) -> P d.
+  Hypothesis Hleaf : forall d, (forall ds, d <> DTuple ds /\ d <> DCompound ds /\ d <> DUnion ds) ->
+                               (forall d', d <> DProperty d' /\ (forall ds fv, d <> DVTuple ds fv) /\ forall mn mx, d <> DList d' mn mx) -> P d.
+  Hypothesis Hprop : forall d, P d -> P (DProperty d).
+  Hypothesis Hvtuple : forall ds fv, Forall P ds -> P (DVTuple ds fv).
+  Hypothesis Hlist : forall d mn mx, P d -> P (DList d mn mx).
   Hypothesis Htuple : forall ds, Forall P ds -> P (DTuple ds).
   Hypothesis Hcomp : forall ds, Forall P ds -> P (DCompound ds).
   Hypothesis Hunion : forall ds, Forall P ds -> P (DUnion ds).
@@ -498,10 +502,13 @@ Section desc_ind_nested.
     assert (L : forall ds, Forall P ds).
     { fix IHl 1. intros [|a ds]; [constructor | constructor; [apply desc_ind' | apply IHl]]. }
     destruct d.
-    all: try (apply Hleaf; intros ds0; repeat split; discriminate).
+    all: try (apply Hleaf; [intros ds0; repeat split; discriminate | intros d0; repeat split; intros; discriminate]).
     - apply Htuple, L.
     - apply Hcomp, L.
     - apply Hunion, L.
+    - apply Hprop, desc_ind'.
+    - apply Hvtuple, L.
+    - apply Hlist, desc_ind'.
   Defined.
 End desc_ind_nested.
 
@@ -520,7 +527,8 @@ Definition alt_eq_at (E : env) (v : pv) (a : desc) : Prop :=
 
 Lemma alt_eq E v : bool_final E = true -> no_tuplesub v = true -> forall a, alt_eq_at E v a.
 Proof.
-  intros HB HT a. induction a as [d H|ds H|ds H|ds H] using desc_ind'.
+  intros HB HT a. induction a as [d H Hnp|d IHd|ds fv H|d mn mx IHd|ds H|ds H|ds H] using desc_ind'.
+  2,3,4: (intros _ _ Hf; discriminate).      (* Property, ValidatedTuple, List: never fast *)
   - (* leaves *) intros _ Hok Hf Hb.
     assert (Hb' : cast_no_escape E v d && none_ok E d && proxy_ok d v && adapt_ok d = true).
     { destruct d; try exact Hb. exfalso. destruct (H ds) as (_ & Hc & _). now apply Hc. }
